@@ -186,10 +186,13 @@ def run(ctx):
                 for r in range(N):
                     for c in range(N):
                         (rows, cols) = uv.locations_index_slices(b, r, c, N, W)
-                        pos = uvl_fn(b, r, c, N, W) if uvl_fn is not None else list(zip(rows, cols))
+                        rows, cols = [int(x) for x in rows], [int(x) for x in cols]
+                        # positions are taken from the PUBLIC slice form only (a private helper may legitimately
+                        # return any iterable, e.g. a generator, as long as its public callers materialise it)
+                        pos = list(zip(rows, cols))
                         in_upper = (b > 0) or (c >= r)
                         if in_upper:
-                            comp = uv.locations_compressed(b, r, c, N, W)
+                            comp = list(uv.locations_compressed(b, r, c, N, W))
                             comp_s = show_list([int(x) for x in comp])
                         else:
                             # below-diagonal entries of the diagonal block are outside the
@@ -219,6 +222,9 @@ def run(ctx):
                         if list(zip(rows, cols)) != [tuple(p) for p in pos]:
                             ctx.violation("impl-violation", "slice form and position list differ",
                                           {"NW": [N, W], "class": [b, r, c]}, {"site": "slices"})
+                        if len(comp) != len(pos):
+                            ctx.violation("impl-violation", f"class {(b, r, c)}: compressed form lists {len(comp)} indices for "
+                                          f"{len(pos)} positions", {"NW": [N, W], "class": [b, r, c]}, {"site": "loc-compressed"})
                         for (p, k) in zip(pos, comp):
                             R, C = p
                             if not (0 <= R <= C < n):
